@@ -15,6 +15,7 @@ class Event:
     complete = False
     alert_done = False
     waitingHandlers = 0
+    _failed = False
 
     @classmethod
     def create(cls, _name, *args, **kwargs):
